@@ -151,17 +151,21 @@ func runP2P(outPath string, scale int, inPath string) {
 		if banned {
 			// a refusal must be explained by the receiver's gater (it penalised the sender's address for the malformed message);
 			// otherwise the receiver is not answering: patience first (load), then the case is reported as unresponsive
+			// (the pairs use a 30 ms ban expiry: on a loaded machine the entry may already have been swept, and the connection the ban
+			// closed stays closed: reconnect and ask again — a receiver that answers then is alive)
 			_, _, scored := pair.b.Score("127.0.0.1")
 			if !scored && len(pair.b.Banned()) == 0 {
-				for try := 0; try < 10 && banned; try++ {
-					time.Sleep(300 * time.Millisecond)
-					banned = !pair.ping()
+				answered := false
+				for try := 0; try < 15 && !answered && !scored; try++ {
+					time.Sleep(200 * time.Millisecond)
+					ctx, cancel := context.WithTimeout(context.Background(), 2*time.Second)
+					_ = pair.a.Connect(ctx, pair.b)
+					cancel()
+					answered = pair.ping()
 					_, _, scored = pair.b.Score("127.0.0.1")
-					if scored || len(pair.b.Banned()) > 0 {
-						break
-					}
+					scored = scored || len(pair.b.Banned()) > 0
 				}
-				if banned && !scored && len(pair.b.Banned()) == 0 {
+				if !answered && !scored {
 					rec.Send += "unresponsive"
 				}
 			}
